@@ -1,0 +1,40 @@
+//go:build verif
+
+package peersync
+
+import (
+	"context"
+	"time"
+)
+
+// Verification hooks (build tag verif): synchronous access to the message
+// handler and the poller, and a way to move the poller's request clock.
+
+// VerifProcessMessage runs the message handler synchronously for one message.
+func (ps *PeerSync) VerifProcessMessage(ctx context.Context, msg CustomMessage) {
+	ps.handler.processMessage(ctx, msg)
+}
+
+// VerifCleanupExpired runs one cleanup sweep of the poller.
+func (ps *PeerSync) VerifCleanupExpired(ctx context.Context) error {
+	return ps.poller.cleanupExpired(ctx)
+}
+
+// VerifBackdateRequests moves every recorded request time d into the past.
+func (ps *PeerSync) VerifBackdateRequests(d time.Duration) {
+	ps.poller.mu.Lock()
+	defer ps.poller.mu.Unlock()
+	for id, t := range ps.poller.lastRequestedAt {
+		ps.poller.lastRequestedAt[id] = t.Add(-d)
+	}
+}
+
+// VerifLocalCapability returns what would be advertised to peer.
+func (ps *PeerSync) VerifLocalCapability(peer PeerID) *PeerCapabilitySnapshot {
+	return ps.capabilityToDTO(ps.localCapabilityForPeer(peer), peer)
+}
+
+// VerifIntervals returns the cleanup timeout and the request interval.
+func (ps *PeerSync) VerifIntervals() (cleanupTimeout, requestInterval, pollInterval time.Duration) {
+	return ps.cleanupTimeout, ps.requestPollInterval, ps.logic.pollInterval
+}
